@@ -1,11 +1,16 @@
 #!/bin/sh
-# tools/run_seeded.sh Cxx /verif/seeded/<name>  — apply a seeded change to /repo, run the quick check, undo it
-ID="$1"; D="$2"
-cd /repo && git diff --quiet || { echo "/repo has uncommitted changes"; exit 2; }
-git -C /repo apply "$D/patch.diff" || { echo "patch does not apply"; exit 2; }
-cd /verif && ./check.py "$ID" --tier "${3:-quick}" > "/tmp/seeded_$$.out" 2> "/tmp/seeded_$$.err"; rc=$?
-git -C /repo checkout -- .
-grep -E "VIOLATION|KNOWN-FINDING" "/tmp/seeded_$$.out"; tail -1 "/tmp/seeded_$$.err"
-echo "rc=$rc"; rm -f "/tmp/seeded_$$.out" "/tmp/seeded_$$.err"
-# restore the evidence of the unchanged tree
-git -C /verif checkout -- "evidence/$ID.json" 2>/dev/null || true
+# tools/run_seeded.sh Cxx /verif/seeded/<name> [tier]
+# Applies a seeded change to a PRIVATE copy of /repo (/root/seedrun/repo), runs the property's check from a private
+# copy of /verif against it (RRE_REPO), and undoes it. /repo and /verif themselves are not touched, so this can run
+# while other work goes on; a lock serialises concurrent invocations. Replay: /root/seedrun/verif/replays/.
+ID="$1"; D="$2"; TIER="${3:-quick}"; S=/root/seedrun
+mkdir -p $S
+exec 9>$S/.lock; flock 9
+rsync -a --delete --exclude .git --exclude work --exclude replays --exclude harness/target --exclude harness/Cargo.toml --exclude harness/Cargo.lock --exclude lean/.lake /verif/ $S/verif/
+rsync -a --delete --exclude target /repo/ $S/repo/
+git -C $S/repo checkout -q -- . ; git -C $S/repo clean -qfd -e target
+git -C $S/repo apply "$D/patch.diff" || { echo "patch does not apply"; exit 2; }
+cd $S/verif && RRE_REPO=$S/repo ./check.py "$ID" --tier "$TIER" > "$S/out.$$" 2> "$S/err.$$"; rc=$?
+git -C $S/repo checkout -q -- .
+grep -E "^VIOLATION|^KNOWN-FINDING" "$S/out.$$"; tail -1 "$S/err.$$"
+echo "rc=$rc"; rm -f "$S/out.$$" "$S/err.$$"
